@@ -5,7 +5,7 @@ from harness import core, aclhist
 
 PROP = "C15"
 TRACE_MODULES = ["Trace_Acl"]
-WEIGHTS = dict(Group=6, Ungroup=3, Sort=5, Permute=4, Reverse=2, Resequence=5, TcamCount=4, Insert=1, Pop=1)
+WEIGHTS = dict(EditEntry=2, Group=6, Ungroup=3, Sort=5, Permute=4, Reverse=2, Resequence=5, TcamCount=4, Insert=1, Pop=1)
 
 
 def run(tier, seed):
